@@ -136,10 +136,21 @@ impl<T> Iterator for Src<'_, T> {
         }
         x
     }
-    /// what the source reports as size_hint; every variant is truthful (a lower bound that is
-    /// not above, an upper bound that is not below the number of items still to come)
+    /// what the source reports as size_hint: four truthful shapes (a lower bound that is not above,
+    /// an upper bound that is not below the number of items still to come) and, when bits 3 and 4
+    /// of `hint` are both set, four untruthful ones
     fn size_hint(&self) -> (usize, Option<usize>) {
         let n = self.it.len();
+        if self.hint & 0x18 == 0x18 {
+            // a source whose size_hint is wrong (safe code may get it wrong; the container must
+            // not rely on it for memory safety or for its capacity check)
+            return match self.hint & 3 {
+                0 => (0, Some(0)),
+                1 => (n / 2, Some(n / 2)),
+                2 => (n + 2, Some(n + 2)),
+                _ => (0, Some(n.saturating_sub(1))),
+            };
+        }
         match self.hint & 3 {
             0 => (n, Some(n)),
             1 => (0, None),
@@ -166,6 +177,8 @@ pub struct SetEng<'c, KD: Kind, const N: usize> {
     /// a container is malformed (duplicate keys, len disagrees with iteration, dead element) and
     /// the armed property does not own that: the rest of the case is discarded
     pub abandon: bool,
+    /// an iterator / drain was forgotten in the op in flight: what it held may have leaked
+    pub may_leak: bool,
     pub op_overflow: bool,
     pub ever_overflow: bool,
     pub ever_cloned: bool,
@@ -260,6 +273,7 @@ where
         let (p_well, p_ledger, p_canary, p_leak) = (P_WELL.inter(elig), P_LEDGER.inter(elig), P_CANARY.inter(elig), P_LEAK.inter(elig));
         let p_all = p_well.union(p_ledger).union(state0);
         let mut stored: Vec<u32> = Vec::new();
+        let mut stored_n: i64 = 0;
         let mut malformed = false;
         for w in 0..2 {
             let (state, ident) = if target == 2 || target == w { (state0, ident0) } else { (P15, P15) };
@@ -273,6 +287,7 @@ where
                     return;
                 }
             };
+            stored_n += obs.len() as i64;
             let len = slot.c.m.len();
             let cap = slot.c.m.capacity();
             if obs.len() != len || len > cap || obs.iter().any(|o| !o.live) {
@@ -392,6 +407,22 @@ where
                 }
                 cx.chk(p_leak, ok, "leak", || msg);
             }
+        }
+        if tl::take_may_leak() {
+            self.may_leak = true;
+        }
+        if KD::COUNTS_LIVE {
+            // zero-sized payload with drop glue: ownership by counting (created - destroyed)
+            let cx = &mut *self.cx;
+            let (lk, lv) = KD::live();
+            let (sk, sv) = (stored_n, if false { stored_n } else { 0 });
+            cx.chk(p_ledger, lk >= sk && lv >= sv, "count-double-drop", || format!("{sk} keys / {sv} values are stored but only {lk} / {lv} objects are alive: something was destroyed twice (or a dead slot is counted as live)"));
+            if faulted || self.may_leak {
+                KD::live_forgive(sk, sv);
+            } else {
+                cx.chk(p_leak, lk <= sk && lv <= sv, "count-leak", || format!("{lk} keys / {lv} values are alive but only {sk} / {sv} are stored: something was never destroyed"));
+            }
+            self.may_leak = false;
         }
         {
             let mis = tl::take_misaligned();
@@ -657,13 +688,24 @@ where
             let keep = |raw: u8| (mask >> (raw % 15)) & 1 == 1;
             let m = &mut slot.c.m;
             let mut seen_refs: Vec<usize> = Vec::with_capacity(N + 2);
+            // positional predicate (stateful FnMut): the verdict depends on the number of elements
+            // visited before; the model follows the verdicts actually given
+            let positional = mask & 0x8000 != 0;
+            let mut visits = [0u8; 256];
+            let mut verdict = [false; 256];
+            let mut calls = 0u32;
             let r = Self::lib(cx, || {
                 m.retain(|kk| {
                     tl::tick(Cb::Pred);
                     if seen_refs.len() < seen_refs.capacity() {
                         seen_refs.push(addr(kk));
                     }
-                    keep(KD::kraw(kk))
+                    let raw = KD::kraw(kk);
+                    visits[raw as usize] = visits[raw as usize].saturating_add(1);
+                    let kp = if positional { (mask >> (calls % 15)) & 1 == 1 } else { keep(raw) };
+                    calls += 1;
+                    verdict[raw as usize] = kp;
+                    kp
                 })
             });
             cx.log(|| format!("retain[{w}](mask {mask:#x}) -> {r:?}"));
@@ -676,8 +718,16 @@ where
                 Ok(()) => {
                     let keys: Vec<u8> = slot.model.keys().copied().collect();
                     let before = keys.len();
+                    if !liar {
+                        // an ideal set puts every element to the predicate exactly once
+                        for raw in 0..=255u8 {
+                            let want = if slot.model.contains_key(&raw) { 1 } else { 0 };
+                            let got = visits[raw as usize];
+                            cx.chk(P07, got == want, "retain-visits", || format!("retain called its predicate {got} time(s) for element {raw} (stored: {})", want == 1));
+                        }
+                    }
                     for kk in keys {
-                        if !keep(kk) {
+                        if !verdict[kk as usize] {
                             if slot.order.last() != Some(&kk) {
                                 slot.swapped = true;
                                 cx.bump(S::swap_removals);
@@ -787,6 +837,7 @@ where
             if end == 2 {
                 cx.bump(S::forgets);
                 std::mem::forget(d);
+                    tl::mark_may_leak();
                 if KD::TRACKED {
                     for o in &pre {
                         if !ys.iter().any(|y| y.1 == o.kid) {
@@ -1018,6 +1069,7 @@ where
             if end == 2 {
                 cx.bump(S::forgets);
                 std::mem::forget(it);
+                    tl::mark_may_leak();
                 if KD::TRACKED {
                     for o in &pre {
                         if !ys.iter().any(|y| y.1 == o.kid) {
@@ -1086,6 +1138,11 @@ where
         let keys = self.gen_keys(a, b, len);
         let by_ref = KD::K::IS_COPY && (a & 1 == 1);
         let hint = b >> 3;
+        // a source with an untruthful size_hint: C16 / C07 (about well-behaved sources) stand back,
+        // the capacity check (C03) and the standing memory-safety invariants stay armed
+        let lying = hint & 0x18 == 0x18;
+        let p16 = if lying { PS::NONE } else { P16 };
+        let p07 = if lying { PS::NONE } else { PS::of(Prop::C07) };
         let univ = self.univ;
         {
             let Some(slot) = self.slots[w].as_mut() else { return };
@@ -1107,6 +1164,9 @@ where
                 }
             }
             cx.bump(S::bulk_calls);
+            if lying {
+                cx.bump(S::bulk_lying_hints);
+            }
             if overflow_at.is_none() && slot.model.len() + len > N {
                 cx.bump(S::bulk_longer_than_n);
             }
@@ -1137,9 +1197,9 @@ where
             match r {
                 Ok(()) => {
                     if !liar {
-                        cx.chk(P16.and(Prop::C03).and(Prop::C07), overflow_at.is_none(), "overflow-not-rejected", || format!("extend accepted more than {N} distinct elements"));
+                        cx.chk(p16.union(p07).and(Prop::C03), overflow_at.is_none(), "overflow-not-rejected", || format!("extend accepted more than {N} distinct elements"));
                         let p = pulled.get();
-                        cx.chk(P16, p == len, "source-consumption", || format!("the source yielded {len} items but {p} were pulled"));
+                        cx.chk(p16, p == len, "source-consumption", || format!("the source yielded {len} items but {p} were pulled"));
                     }
                     if by_ref {
                         // copies are stored: identities are not observable for Copy payloads
@@ -1159,7 +1219,7 @@ where
                     self.lib_panicked = true;
                     if !liar {
                         // C03 owns it when the set was (or became) full and present elements kept arriving
-                        let owner = if overflow_at.is_some() || want.len() == N { P16.and(Prop::C03).and(Prop::C07) } else { P16.and(Prop::C07) };
+                        let owner = if lying { PS::NONE } else if overflow_at.is_some() || want.len() == N { P16.and(Prop::C03).and(Prop::C07) } else { P16.and(Prop::C07) };
                         cx.chk(owner, overflow_at.is_some(), "spurious-overflow", || format!("extend panicked although the result has at most {N} distinct elements"));
                     }
                     // partial effect: everything before the overflow point was inserted
@@ -1171,13 +1231,17 @@ where
                         }
                     }
                 }
-                Err(p) => fault = unexpected(cx, liar, P16, &p),
+                Err(p) => fault = unexpected(cx, liar, p16, &p),
             }
             self.groups |= 1;
         }
         self.note_mut();
         self.note_fault(fault, true);
-        self.after(P16.and(Prop::C07).and(Prop::C03), P16.and(Prop::C12));
+        if lying {
+            self.after(PS::NONE, PS::NONE);
+        } else {
+            self.after(P16.and(Prop::C07).and(Prop::C03), P16.and(Prop::C12));
+        }
     }
 
     fn op_clone(&mut self, a: u8) {
@@ -1315,6 +1379,8 @@ where
         // c is a 7-bit argument (the top bit of the byte selects the container)
         let sub = (c as usize * 3) >> 7;
         let hint = c;
+        let lying = hint & 0x18 == 0x18 && sub != 2;
+        let p16 = if lying { PS::NONE } else { P16 };
         let len = if sub == 2 { N } else { scale(a, 3 * N + 3) };
         let keys = self.gen_keys(a, b, len);
         let cx = &mut *self.cx;
@@ -1332,6 +1398,9 @@ where
             }
         }
         cx.bump(S::bulk_calls);
+        if lying {
+            cx.bump(S::bulk_lying_hints);
+        }
         if len > N && overflow_at.is_none() {
             cx.bump(S::bulk_longer_than_n);
         }
@@ -1381,10 +1450,10 @@ where
                 let mut slot: Slot<KD, N> = Slot::new();
                 *slot.c = Caged::new(ns);
                 if !liar {
-                    cx.chk(P16.and(Prop::C03), overflow_at.is_none(), "overflow-not-rejected", || format!("{} distinct elements were accepted by a set of {N}", want.len() + 1));
+                    cx.chk(p16.and(Prop::C03), overflow_at.is_none(), "overflow-not-rejected", || format!("{} distinct elements were accepted by a set of {N}", want.len() + 1));
                     if sub != 2 {
                         let p = pulled.get();
-                        cx.chk(P16, p == len, "source-consumption", || format!("the source yielded {len} items but {p} were pulled"));
+                        cx.chk(p16, p == len, "source-consumption", || format!("the source yielded {len} items but {p} were pulled"));
                     }
                     for e in &want {
                         slot.model.insert(e.0, ids[e.1]);
@@ -1414,7 +1483,7 @@ where
                                     _ => same = false,
                                 }
                             }
-                            cx.chk(P16, same, "bulk-vs-inserts", || format!("{} of {keys:?} differs from inserting the items one by one", names[sub]));
+                            cx.chk(p16, same, "bulk-vs-inserts", || format!("{} of {keys:?} differs from inserting the items one by one", names[sub]));
                         }
                         let _ = tl::quiet(move || drop(refs));
                     }
@@ -1424,15 +1493,15 @@ where
             Err(p) if p != Pk::Injected => {
                 cx.bump(S::lib_panics);
                 if !liar {
-                    let owner = if overflow_at.is_some() || repeat_after_full { P16.and(Prop::C03) } else { P16 };
+                    let owner = if lying { PS::NONE } else if overflow_at.is_some() || repeat_after_full { p16.and(Prop::C03) } else { p16 };
                     cx.chk(owner, overflow_at.is_some(), "spurious-overflow", || format!("{} panicked although only {} distinct elements were supplied to a set of {N}", names[sub], want.len()));
                 }
             }
-            Err(p) => fault |= unexpected(cx, liar, P16, &p),
+            Err(p) => fault |= unexpected(cx, liar, p16, &p),
         }
         self.note_fault(fault, true);
         self.cur_target = 1;
-        self.after(P16, P16.and(Prop::C12));
+        self.after(p16, p16.and(Prop::C12));
     }
 
     fn op_overflow_sweep(&mut self, w: usize, a: u8, b: u8) {
@@ -1701,6 +1770,23 @@ where
             let left = tl::ledger_live_strict();
             self.cx.chk(P_LEAK.inter(elig), left.is_empty(), "leak-at-end", || format!("{} object(s) never destroyed, e.g. #{}", left.len(), left[0]));
         }
+        if KD::COUNTS_LIVE && !self.poisoned {
+            let mut elig = PS::of(Prop::C02).and(Prop::C05);
+            if self.ever_faulted {
+                elig = elig.and(Prop::C04);
+            }
+            if self.ever_overflow {
+                elig = elig.and(Prop::C03);
+            }
+            if self.ever_cloned {
+                elig = elig.and(Prop::C15);
+            }
+            let (lk, lv) = KD::live();
+            self.cx.chk(P_LEDGER.inter(elig), lk >= 0 && lv >= 0, "count-double-drop", || format!("after everything was dropped the live counts are {lk} keys / {lv} values: something was destroyed twice"));
+            if !self.ever_faulted && !self.may_leak {
+                self.cx.chk(P_LEAK.inter(elig), lk <= 0 && lv <= 0, "count-leak-at-end", || format!("{lk} key(s) / {lv} value(s) never destroyed"));
+            }
+        }
         if self.ever_faulted {
             self.cx.bump(S::fault_fired);
         }
@@ -1744,6 +1830,10 @@ impl Copy2 for mmv_base::kinds::PK {
     const IS_COPY: bool = false;
     fn extend_by_ref<'a, const N: usize, I: Iterator<Item = &'a Self>>(_: &mut Set<Self, N>, _: I) {}
 }
+impl Copy2 for mmv_base::kinds::DK {
+    const IS_COPY: bool = false;
+    fn extend_by_ref<'a, const N: usize, I: Iterator<Item = &'a Self>>(_: &mut Set<Self, N>, _: I) {}
+}
 impl Copy2 for String {
     const IS_COPY: bool = false;
     fn extend_by_ref<'a, const N: usize, I: Iterator<Item = &'a Self>>(_: &mut Set<Self, N>, _: I) {}
@@ -1754,6 +1844,8 @@ where
     KD::K: Copy2,
 {
     tl::ledger_reset();
+    KD::live_reset();
+    let _ = tl::take_may_leak();
     cx.engine = "sethist";
     if case.prop == Prop::C17 {
         let bits: Vec<u8> = case.ops.iter().flat_map(|o| [o[2], o[3]]).collect();
@@ -1781,6 +1873,7 @@ where
         cur_target: 0,
         poisoned: false,
         abandon: false,
+            may_leak: false,
         op_overflow: false,
         ever_overflow: false,
         ever_cloned: false,
@@ -1817,7 +1910,7 @@ where
 }
 
 pub fn run_dyn(case: &Case, cx: &mut Ctx) {
-    use mmv_base::kinds::{NoDrop, PathK, Plain, Str, Tagged, Tracked, ZstKey};
+    use mmv_base::kinds::{NoDrop, PathK, Plain, Str, Tagged, Tracked, ZstDrop, ZstKey};
     // sets are instantiated for tracked / plain / string / zero-sized / no-drop-glue elements
     let kind = match case.kind % mmv_base::case::NKINDS {
         0 => 0,
@@ -1826,6 +1919,7 @@ pub fn run_dyn(case: &Case, cx: &mut Ctx) {
         6 => 6,
         8 => 8,
         9 => 9,
+        10 => 10,
         _ => 1,
     };
     let n = mmv_base::capacity_of(&Case { kind, ..case.clone() });
@@ -1836,6 +1930,7 @@ pub fn run_dyn(case: &Case, cx: &mut Ctx) {
         4 => mmv_base::by_cap!(run, ZstKey, n, case, cx, [0, 1]),
         6 => mmv_base::by_cap!(run, NoDrop, n, case, cx, [0, 1, 2, 3, 4, 6]),
         8 => mmv_base::by_cap!(run, Tagged, n, case, cx, [0, 1, 2, 3, 4, 6, 9]),
+        10 => mmv_base::by_cap!(run, ZstDrop, n, case, cx, [0, 1, 2]),
         _ => mmv_base::by_cap!(run, PathK, n, case, cx, [0, 1, 2, 3, 4, 6]),
     }
 }
